@@ -42,6 +42,100 @@ ValidOrderClause(edges, ord) ==
        ELSE "ok"
 ValidOrder(edges, ord) == ValidOrderClause(edges, ord) = "ok"
 
+
+\* =============================================================== C08: matching and assembly =====
+\* A peak is identified by <<node, idx>> (idx 0-based within the node's peaks, as in PeakID).
+\* A connection is a record [e |-> edge index (0-based), s |-> src idx, d |-> dst idx, q |-> score (int), nan |-> BOOLEAN].
+
+InjPartial(S, T) == UNION {{f \in [A -> T] : \A x, y \in A : x # y => f[x] # f[y]} : A \in SUBSET S}
+
+\* --- per-edge optimal one-to-one matching (linear_sum_assignment semantics) -----------------------
+\* usable: set of <<s, d>> pairs with a valid score; sc[<<s, d>>]: score.  A matching is a set of usable
+\* pairs, one-to-one.  Optimal = maximum cardinality, then maximum total.
+IsMatching(M) == \A a, b \in M : a # b => (a[1] # b[1] /\ a[2] # b[2])
+Matchings(usable) == {M \in SUBSET usable : IsMatching(M)}
+TotalOf(M, sc) == FoldSet(LAMBDA p, acc : acc + sc[p], 0, M)
+MaxCard(usable) == Max({Cardinality(M) : M \in Matchings(usable)})
+OptTotal(usable, sc) == Max({TotalOf(M, sc) : M \in {X \in Matchings(usable) : Cardinality(X) = MaxCard(usable)}})
+
+\* observed matches of one edge type (as connection records) against the candidates of that edge
+MatchClauseEdge(cands, obs, slack) ==
+    LET usable == {<<c.s, c.d>> : c \in {x \in cands : ~x.nan}}
+        sc == [p \in usable |-> (CHOOSE c \in cands : c.s = p[1] /\ c.d = p[2]).q]
+        good == {<<m.s, m.d>> : m \in {x \in obs : ~x.nan}}
+    IN IF \E m \in obs : ~(\E c \in cands : c.s = m.s /\ c.d = m.d /\ c.nan = m.nan /\ (c.nan \/ c.q = m.q)) THEN "match_is_not_a_candidate"
+       ELSE IF ~IsMatching({<<m.s, m.d>> : m \in obs}) \/ Cardinality({<<m.s, m.d>> : m \in obs}) # Cardinality(obs) THEN "match_not_one_to_one"
+       ELSE IF usable = {} THEN "ok"
+       ELSE IF Cardinality(good) < MaxCard(usable) THEN "match_not_maximum_cardinality"
+       ELSE IF TotalOf(good, sc) + slack * Cardinality(good) < OptTotal(usable, sc) THEN "match_total_not_maximal"
+       ELSE "ok"
+
+\* --- connected components of the accepted connections ----------------------------------------------
+SrcPeak(edges, c) == <<edges[c.e + 1][1], c.s>>
+DstPeak(edges, c) == <<edges[c.e + 1][2], c.d>>
+PeaksOf(edges, A) == UNION {{SrcPeak(edges, c), DstPeak(edges, c)} : c \in A}
+RECURSIVE Grow(_, _, _)
+Grow(edges, A, S) ==
+    LET T == S \cup UNION {{SrcPeak(edges, c), DstPeak(edges, c)} : c \in {x \in A : SrcPeak(edges, x) \in S \/ DstPeak(edges, x) \in S}}
+    IN IF T = S THEN S ELSE Grow(edges, A, T)
+Components(edges, A) == {Grow(edges, A, {p}) : p \in PeaksOf(edges, A)}
+ScoreOf(edges, A, comp) == FoldSet(LAMBDA c, acc : acc + c.q, 0, {c \in A : SrcPeak(edges, c) \in comp})
+
+\* --- greedy instance assembly as coded (assign_connections_to_instances) ------------------------------
+\* conns: sequence of connection records in processing order (edge types in sorted order, connections in
+\* list order).  asg: function PeakID -> instance id.  One step per connection.
+AsmStep(edges, asg, c) ==
+    LET sp == SrcPeak(edges, c)
+        dp == DstPeak(edges, c)
+        sAs == sp \in DOMAIN asg
+        dAs == dp \in DOMAIN asg
+        newId == IF DOMAIN asg = {} THEN 0 ELSE Max({asg[p] : p \in DOMAIN asg}) + 1
+        ext(f, p, v) == [x \in DOMAIN f \cup {p} |-> IF x = p THEN v ELSE f[x]]
+    IN IF ~sAs /\ ~dAs THEN ext(ext(asg, sp, newId), dp, newId)                       \* case 1
+       ELSE IF sAs /\ ~dAs THEN ext(asg, dp, asg[sp])                                    \* case 2
+       ELSE IF sAs /\ dAs THEN                                                           \* case 3 (+ merge)
+            LET si == asg[sp]
+                di == asg[dp]
+                a1 == ext(asg, dp, si)
+                sN == {p[1] : p \in {x \in DOMAIN a1 : a1[x] = si}}
+                dN == {p[1] : p \in {x \in DOMAIN a1 : a1[x] = di}}
+            IN IF sN \cap dN = {} THEN [x \in DOMAIN a1 |-> IF a1[x] = di THEN si ELSE a1[x]] ELSE a1
+       ELSE asg                                                                            \* dst only: NOT handled (as coded)
+InstancesOf(asg) == {{p \in DOMAIN asg : asg[p] = i} : i \in {asg[p] : p \in DOMAIN asg}}
+
+\* --- the full ValidGrouping clause for one recorded case (Judge_C08) ----------------------------------------
+\* c.peaks: per node a sequence of <<x, y, v>>;  c.inst: sequence of instances, each a sequence over nodes of
+\* <<x, y, v, present>> (present = 1 / 0);  c.iscore: instance scores;  c.matches / c.cand: connection records.
+SigOfComp(c, comp) == [n \in 1..c.n_nodes |->
+                         IF \E p \in comp : p[1] = n - 1
+                         THEN LET p == CHOOSE p \in comp : p[1] = n - 1 IN
+                              <<c.peaks[n][p[2] + 1][1], c.peaks[n][p[2] + 1][2], c.peaks[n][p[2] + 1][3], 1>>
+                         ELSE <<0, 0, 0, 0>>]
+GroupingClause(c, slackScore) ==
+    LET E == 0..(Len(c.edges) - 1)
+        cands(e) == {c.cand[i] : i \in {j \in 1..Len(c.cand) : c.cand[j].e = e}}
+        obs(e) == {c.matches[i] : i \in {j \in 1..Len(c.matches) : c.matches[j].e = e}}
+        bad == {e \in E : MatchClauseEdge(cands(e), obs(e), 1) # "ok"}
+        A == {c.matches[i] : i \in {j \in 1..Len(c.matches) : ~c.matches[j].nan /\ c.matches[j].q >= c.minq}}
+        comps == {k \in Components(c.edges, A) : Cardinality(k) >= c.minpeaks}
+        want == {SigOfComp(c, k) : k \in comps}
+        got == {c.inst[i] : i \in 1..Len(c.inst)}
+    IN IF c.raised # "" THEN "raised"
+       ELSE IF Len(c.matches) # Cardinality({c.matches[i] : i \in 1..Len(c.matches)}) THEN "duplicate_match_records"
+       ELSE IF bad # {} THEN MatchClauseEdge(cands(CHOOSE e \in bad : TRUE), obs(CHOOSE e \in bad : TRUE), 1)
+       ELSE IF \E k1, k2 \in comps : k1 # k2 /\ k1 \cap k2 # {} THEN "spec_components_overlap"
+       ELSE IF \E k \in comps : \E p1, p2 \in k : p1 # p2 /\ p1[1] = p2[1] THEN "component_has_two_peaks_of_one_node"
+       ELSE IF Cardinality(got) # Len(c.inst) THEN "duplicate_instances"
+       ELSE IF \E g \in got : \E n \in 1..c.n_nodes : g[n][4] = 1 /\
+                   ~(\E k \in 1..Len(c.peaks[n]) : c.peaks[n][k] = <<g[n][1], g[n][2], g[n][3]>>) THEN "keypoint_is_not_an_input_peak"
+       ELSE IF \E g1, g2 \in got : g1 # g2 /\ \E n \in 1..c.n_nodes : g1[n][4] = 1 /\ g1[n] = g2[n] THEN "peak_in_two_instances"
+       ELSE IF got # want THEN "instances_are_not_the_components"
+       ELSE IF \E i \in 1..Len(c.inst) :
+                 LET k == CHOOSE k \in comps : SigOfComp(c, k) = c.inst[i]
+                     d == c.iscore[i] - ScoreOf(c.edges, A, k)
+                 IN d > slackScore \/ -d > slackScore THEN "instance_score_not_sum_of_edge_scores"
+       ELSE "ok"
+
 \* ------------------------------------------------ breadth-first edge order (toposort_edges) --
 \* State machine for nx.bfs_edges from the root: a FIFO of visited nodes; popping node v emits
 \* all edges leaving v (in any order - networkx uses adjacency insertion order, which the
